@@ -270,3 +270,164 @@ Proof.
   intros H. unfold to_commit_proof, to_json_commit_proof.
   cbn [jcp_round jcp_pkh jcp_commits gb2s opt_list]. rewrite (build_map_entries _ H). reflexivity.
 Qed.
+
+(** * Map lookups are independent of the order of the association list *)
+Lemma alist_find_none {V} k (l : list (list N * V)) : alist_find k l = None <-> ~ In k (map fst l).
+Proof.
+  induction l as [|[k' v] l IH]; cbn [alist_find map fst In].
+  - split; [intros _ H; exact H|reflexivity].
+  - destruct (bytes_eqb k' k) eqn:E.
+    + apply bytes_eqb_eq in E. split; [discriminate|]. intros H. exfalso. apply H. left. exact E.
+    + apply bytes_eqb_neq in E. rewrite IH. split.
+      * intros H [H1|H1]; [exact (E H1)|exact (H H1)].
+      * intros H H1. apply H. right. exact H1.
+Qed.
+
+Lemma alist_find_perm {V} k (l l' : list (list N * V)) :
+  Permutation l l' -> NoDup (map fst l) -> alist_find k l = alist_find k l'.
+Proof.
+  induction 1 as [| [k1 v1] l l' HP IH | [k1 v1] [k2 v2] l | l l' l'' HP1 IH1 HP2 IH2]; intros ND.
+  - reflexivity.
+  - cbn [alist_find]. cbn [map fst] in ND. inversion ND; subst.
+    destruct (bytes_eqb k1 k); [reflexivity|]. apply IH. assumption.
+  - cbn [alist_find]. cbn [map fst] in ND. inversion ND as [|? ? Hn _]; subst.
+    destruct (bytes_eqb k2 k) eqn:E2; destruct (bytes_eqb k1 k) eqn:E1; try reflexivity.
+    apply bytes_eqb_eq in E1, E2. subst. exfalso. apply Hn. left. reflexivity.
+  - rewrite IH1 by exact ND. apply IH2.
+    eapply Permutation_NoDup; [apply Permutation_map; exact HP1|exact ND].
+Qed.
+
+Lemma insert_kv_perm e l : Permutation (insert_kv e l) (e :: l).
+Proof.
+  induction l as [|x l IH]; cbn [insert_kv]; [reflexivity|].
+  destruct (bytes_ltb (fst e) (fst x)); [reflexivity|].
+  rewrite perm_swap. constructor. exact IH.
+Qed.
+
+Lemma sort_kv_perm l : Permutation (sort_kv l) l.
+Proof.
+  induction l as [|x l IH]; cbn [sort_kv fold_right]; [reflexivity|].
+  fold (sort_kv l). rewrite insert_kv_perm. constructor. exact IH.
+Qed.
+
+(** the encoder's sort commutes with the entry conversion *)
+Lemma insert_entry_map e l : insert_entry (mk_entry e) (map mk_entry l) = map mk_entry (insert_kv e l).
+Proof.
+  induction l as [|x l IH]; cbn [insert_entry insert_kv map]; [reflexivity|].
+  unfold je_key at 1 2. unfold mk_entry at 1 2. cbn [je_hash gb2s].
+  destruct (bytes_ltb (fst e) (fst x)); cbn [map]; [reflexivity|]. f_equal. exact IH.
+Qed.
+
+Lemma sort_entries_map l : sort_entries (map mk_entry l) = map mk_entry (sort_kv l).
+Proof.
+  induction l as [|x l IH]; cbn [sort_entries sort_kv fold_right map]; [reflexivity|].
+  fold (sort_entries (map mk_entry l)). fold (sort_kv l). rewrite IH. apply insert_entry_map.
+Qed.
+
+Lemma sort_kv_nodup l : NoDup (map fst l) -> NoDup (map fst (sort_kv l)).
+Proof.
+  intros H. eapply Permutation_NoDup; [|exact H].
+  apply Permutation_map. symmetry. apply sort_kv_perm.
+Qed.
+
+(** MarshalPrevoteProof/MarshalPrecommitProof then Unmarshal: the map comes back sorted. *)
+Lemma sparse_rt p :
+  sparse_wf_b p = true ->
+  rt_sparse p = mk_sparse (sp_height p) (sp_round p) (sp_pkh p) (Some (sort_kv (pm_list (sp_proofs p)))).
+Proof.
+  intros H. unfold sparse_wf_b, pmap_wf_b in H. apply nodup_keys_NoDup in H.
+  unfold rt_sparse, to_sparse, to_json_sparse.
+  cbn [jsp_height jsp_round jsp_pkh jsp_proofs gb2s opt_list]. f_equal. f_equal.
+  unfold entries_of. change (fun kv : list N * gsigs => mk_jentry (Some (fst kv)) (snd kv)) with mk_entry.
+  rewrite sort_entries_map. unfold build_map.
+  rewrite (build_map_acc (sort_kv (pm_list (sp_proofs p))) []); [reflexivity|].
+  cbn [app]. apply sort_kv_nodup. exact H.
+Qed.
+
+(** * The round-trip relation, in Prop (the boolean form is Monitors/C14m.v) *)
+Definition pmap_eqv (a b : pmap) : Prop := forall k, pm_find k a = pm_find k b.
+Definition commit_proof_eqv (a b : commit_proof) : Prop :=
+  cp_round a = cp_round b /\ cp_pkh a = cp_pkh b /\ pmap_eqv (cp_proofs a) (cp_proofs b).
+Definition valset_eqv (a b : valset) : Prop :=
+  opt_list (vs_vals a) = opt_list (vs_vals b) /\ opt_list (vs_pubkeys a) = opt_list (vs_pubkeys b) /\
+  vs_pkh a = vs_pkh b /\ vs_vph a = vs_vph b.
+Definition header_eqv (a b : header) : Prop :=
+  h_hash a = h_hash b /\ h_prev a = h_prev b /\ h_height a = h_height b /\
+  commit_proof_eqv (h_pcp a) (h_pcp b) /\ valset_eqv (h_vs a) (h_vs b) /\ valset_eqv (h_nvs a) (h_nvs b) /\
+  h_dataid a = h_dataid b /\ h_pash a = h_pash b /\ h_user a = h_user b /\ h_driver a = h_driver b.
+Definition proposed_eqv (a b : proposed_header) : Prop :=
+  header_eqv (ph_header a) (ph_header b) /\ ph_round a = ph_round b /\ ph_pub a = ph_pub b /\
+  ph_user a = ph_user b /\ ph_driver a = ph_driver b /\ ph_sig a = ph_sig b.
+Definition committed_eqv (a b : committed_header) : Prop :=
+  header_eqv (ch_header a) (ch_header b) /\ commit_proof_eqv (ch_proof a) (ch_proof b).
+Definition sparse_eqv (a b : sparse_proof) : Prop :=
+  sp_height a = sp_height b /\ sp_round a = sp_round b /\ sp_pkh a = sp_pkh b /\
+  pmap_eqv (sp_proofs a) (sp_proofs b).
+Definition opt_eqv {A} (R : A -> A -> Prop) (a b : option A) : Prop :=
+  match a, b with Some x, Some y => R x y | None, None => True | _, _ => False end.
+Definition cmsg_eqv (a b : cmsg) : Prop :=
+  opt_eqv proposed_eqv (cm_ph a) (cm_ph b) /\ opt_eqv sparse_eqv (cm_pv a) (cm_pv b) /\
+  opt_eqv sparse_eqv (cm_pc a) (cm_pc b).
+
+(** boolean and Prop forms agree *)
+Lemma dec2b_iff {A} (dec : forall a b : A, {a = b} + {a <> b}) a b : dec2b (dec a b) = true <-> a = b.
+Proof. destruct (dec a b); cbn; split; auto; try discriminate; try contradiction. Qed.
+
+Lemma pmap_eqv_b_iff a b : pmap_eqv_b a b = true <-> pmap_eqv a b.
+Proof.
+  unfold pmap_eqv_b, pmap_eqv. rewrite forallb_forall. split.
+  - intros H k.
+    destruct (in_dec bytes_dec k (pm_keys a ++ pm_keys b)) as [Hin|Hnin].
+    + apply (dec2b_iff ogsigs_dec). apply H. exact Hin.
+    + unfold pm_find.
+      assert (Ha : ~ In k (map fst (pm_list a))) by (intros X; apply Hnin, in_or_app; left; exact X).
+      assert (Hb : ~ In k (map fst (pm_list b))) by (intros X; apply Hnin, in_or_app; right; exact X).
+      apply alist_find_none in Ha, Hb. congruence.
+  - intros H k _. apply (dec2b_iff ogsigs_dec). apply H.
+Qed.
+
+Lemma commit_proof_eqv_b_iff a b : commit_proof_eqv_b a b = true <-> commit_proof_eqv a b.
+Proof.
+  unfold commit_proof_eqv_b, commit_proof_eqv.
+  rewrite !andb_true_iff, N.eqb_eq, (dec2b_iff bytes_dec), pmap_eqv_b_iff. tauto.
+Qed.
+
+Lemma valset_eqv_b_iff a b : valset_eqv_b a b = true <-> valset_eqv a b.
+Proof.
+  unfold valset_eqv_b, valset_eqv.
+  rewrite !andb_true_iff, (dec2b_iff (list_eq_dec validator_dec)), (dec2b_iff (list_eq_dec opubkey_dec)),
+    !(dec2b_iff gbytes_dec). tauto.
+Qed.
+
+Lemma header_eqv_b_iff a b : header_eqv_b a b = true <-> header_eqv a b.
+Proof.
+  unfold header_eqv_b, header_eqv.
+  rewrite !andb_true_iff, !(dec2b_iff gbytes_dec), N.eqb_eq, commit_proof_eqv_b_iff, !valset_eqv_b_iff. tauto.
+Qed.
+
+Lemma proposed_eqv_b_iff a b : proposed_eqv_b a b = true <-> proposed_eqv a b.
+Proof.
+  unfold proposed_eqv_b, proposed_eqv.
+  rewrite !andb_true_iff, !(dec2b_iff gbytes_dec), (dec2b_iff opubkey_dec), N.eqb_eq, header_eqv_b_iff. tauto.
+Qed.
+
+Lemma committed_eqv_b_iff a b : committed_eqv_b a b = true <-> committed_eqv a b.
+Proof.
+  unfold committed_eqv_b, committed_eqv. rewrite andb_true_iff, header_eqv_b_iff, commit_proof_eqv_b_iff. tauto.
+Qed.
+
+Lemma sparse_eqv_b_iff a b : sparse_eqv_b a b = true <-> sparse_eqv a b.
+Proof.
+  unfold sparse_eqv_b, sparse_eqv.
+  rewrite !andb_true_iff, !N.eqb_eq, (dec2b_iff bytes_dec), pmap_eqv_b_iff. tauto.
+Qed.
+
+Lemma opt_eqv_b_iff {A} f (R : A -> A -> Prop) (H : forall x y, f x y = true <-> R x y) a b :
+  opt_eqv_b f a b = true <-> opt_eqv R a b.
+Proof. destruct a, b; cbn; try apply H; split; auto; try discriminate; contradiction. Qed.
+
+Lemma cmsg_eqv_b_iff a b : cmsg_eqv_b a b = true <-> cmsg_eqv a b.
+Proof.
+  unfold cmsg_eqv_b, cmsg_eqv.
+  rewrite !andb_true_iff, (opt_eqv_b_iff _ _ proposed_eqv_b_iff), !(opt_eqv_b_iff _ _ sparse_eqv_b_iff). tauto.
+Qed.
